@@ -207,7 +207,10 @@ func c06(w *core.World, r *core.Report) {
 		r.Check(returned, "TIMER-ON-SUCCESS", site+" error returned", w.InstrPos(c), "a timer that failed to start must fail the transaction (otherwise nothing ends it)")
 	}
 
-	// ---- TRYLOCK-PAIR
+	ruleTryLockPair(w, r)
+}
+
+func ruleTryLockPair(w *core.World, r *core.Report) {
 	r.Rule("TRYLOCK-PAIR", 3, "every sync.Mutex.TryLock in pkg/datastore: the failure edge returns ErrDatastoreLocked, and on the success edge 'defer Unlock()' of the same mutex field is registered before any other call. Decides: no path keeps dmutex after the RPC returned.")
 	for _, f := range w.RepoFns {
 		if f.Pkg == nil || f.Pkg.Pkg.Path() != core.Module+"/pkg/datastore" {
